@@ -275,6 +275,20 @@ def run_outputs(unit):
     tier = unit['tier']
     obj0, model0, mod = c07._make(modn, clsn)
     maxu = 3 if tier == 'quick' else 100
+    # a directive names an output ('Units:<output name>, <unit>'): the name must lead to that output and to no other
+    log = harness.UnitLog({'harness': 'output-units', 'class': clsn, 'clause': 'a directive naming an output reaches that output'})
+    log['paths'] += 1
+    log['reachable'] += 1
+    for oname, o0 in list(obj0.OutputParameterDict.items()):
+        log['obligations'] += 1
+        if oname == o0.Name:
+            log['discharged'] += 1
+        else:
+            log['cex'].append({'obligation': f'output "{o0.Name}" is addressed by its own name in a Units: directive', 'finding': None, 'config': dict(log.d['config']),
+                               'reproduced': True, 'inputs': {'directive': f'Units:{oname}, <unit>'},
+                               'detail': {'output reached by that directive': o0.Name, 'directive that names the output': f'Units:{o0.Name}, <unit> (reaches ' + repr(getattr(obj0.OutputParameterDict.get(o0.Name), 'Name', None)) + ')'},
+                               'how': 'native (the registry the directive reader consults)', 'attempts': []})
+    yield log.result()
     for oname, o0 in list(obj0.OutputParameterDict.items()):
         if not isinstance(o0.value, (int, float)) or isinstance(o0.value, bool):
             continue
